@@ -49,7 +49,7 @@ def _callee(F, f, t):
 
 def default_select(f, g):
     return (g.crate == f.crate and g.file == f.file and g.kind in ("Fn", "AssocFn") and not g.coroutine
-            and not g.derived and g.vis != "pub" and g.blocks and g.path != f.path and len(g.blocks) <= 120)
+            and not g.derived and g.vis != "pub" and g.blocks and g.path != f.path and len(g.blocks) <= 600)
 
 
 def inlined(F, f, keep=(), select=None, depth=2):
